@@ -151,11 +151,18 @@ protected:
 
     static void close_device( jpeg_compress_struct* cinfo )
     {
-        writer_backend< Device
-                      , jpeg_tag
-                      >::empty_buffer( cinfo );
-
         gil_jpeg_destination_mgr* dest = reinterpret_cast< gil_jpeg_destination_mgr* >( cinfo->dest );
+
+        // Write the bytes the compressor has put into the buffer since it was last emptied, and only
+        // those (free_in_buffer is valid here, unlike in empty_buffer): the rest of the buffer holds
+        // stale data that must not follow the end-of-image marker.
+        std::size_t const pending = buffer_size - dest->_jdest.free_in_buffer;
+        if( pending > 0 )
+        {
+            dest->_this->_io_dev.write( dest->_this->buffer
+                                      , pending
+                                      );
+        }
 
         dest->_this->_io_dev.flush();
     }
